@@ -19,6 +19,7 @@ Clauses of the property and where they are settled:
 -/
 import XlModel.Lemmas.Cfb
 import XlModel.Lemmas.CfbRead
+import XlModel.Lemmas.CfbRW
 
 namespace XlModel.Props.C13
 open XlModel.Cfb XlModel.Facts.C13
@@ -145,14 +146,24 @@ theorem encrypt_decrypt_package (c : Cipher) (hc : c.Lawful) (raw : List Byte) (
     standardDecryptPkg c (encryptedPackage c raw) = .ok raw :=
   standardDecrypt_encryptedPackage c hc raw hn
 
-/-- *Encrypt followed by Decrypt* (whole file) — partial: the step "the reference reader recovers the
-two streams from the image written by `write`" is an explicit hypothesis `hr` (it is established
-per case by the correspondence driver, field `rt=1`, and by two independent readers on the Go
-bytes; its ingredients are the theorems above). -/
-theorem encrypt_decrypt_file_partial (c : Cipher) (hc : c.Lawful) (isStd : List Byte → Bool)
-    (info raw : List Byte) (img : Image) (hn : raw.length < 2 ^ 64) (hi : isStd info = true)
-    (hr : read img = .ok [⟨infoName, info⟩, ⟨pkgName, encryptedPackage c raw⟩]) :
-    decryptFile c isStd img = .ok raw := by
+/-- *every package size* (container round trip): for **every** list of streams (any number, any
+names, any sizes — empty, below the 4096-byte cutoff, above it, across every FAT and DIFAT
+threshold) `write` succeeds (`locate` terminates, no stream is misplaced) and the [MS-CFB]
+reference reader — header → DIFAT chain → FAT → directory chain → mini FAT → mini stream
+container → per-stream FAT / mini FAT chain from the directory entry's start, cut to the recorded
+size — returns exactly the streams that were put in, in order. -/
+theorem cfb_read_write (streams : List Stream) :
+    ∃ img, write streams = .ok img ∧ read img = .ok streams := read_write streams
+
+/-- *Encrypt followed by Decrypt returns the original bytes* (whole file, full strength): for every
+lawful block cipher, every EncryptionInfo content the decryptor classifies as standard and every
+plaintext (< 2^64 bytes): `Encrypt` produces a compound file and `Decrypt` — reference reader,
+stream lookup by name, mechanism check, `standardDecrypt` — returns exactly the plaintext. -/
+theorem encrypt_decrypt_file (c : Cipher) (hc : c.Lawful) (isStd : List Byte → Bool)
+    (info raw : List Byte) (hn : raw.length < 2 ^ 64) (hi : isStd info = true) :
+    ∃ img, encryptFile c info raw = .ok img ∧ decryptFile c isStd img = .ok raw := by
+  obtain ⟨img, hw, hr⟩ := read_write [⟨infoName, info⟩, ⟨pkgName, encryptedPackage c raw⟩]
+  refine ⟨img, hw, ?_⟩
   unfold decryptFile
   rw [hr]
   have h1 : findStream infoName [⟨infoName, info⟩, ⟨pkgName, encryptedPackage c raw⟩] = info := by
@@ -163,14 +174,14 @@ theorem encrypt_decrypt_file_partial (c : Cipher) (hc : c.Lawful) (isStd : List 
   simp only [h1, h2, hi, if_true]
   exact standardDecrypt_encryptedPackage c hc raw hn
 
-deriving instance DecidableEq for Except
-
 /-- *interoperability parameters*: the ECMA-376 standard-encryption constants `Encrypt` and
 `standardDecrypt` use (spin count 50000, AES-128, 16-byte blocks, 8-byte length prefix), and the two
 sides agree on prefix and block size. -/
 theorem standard_parameters :
     iterCount = 50000 ∧ encBlock = 16 ∧ encKeyBits = 128 ∧ encPrefix = 8 ∧ decOffset = encPrefix ∧
     decPrefix = encPrefix ∧ decBlock = encBlock ∧ packageOffset = 8 := by decide
+
+deriving instance DecidableEq for Except
 
 /-! non-vacuity -/
 
